@@ -5,6 +5,21 @@ sys.path.insert(0, os.path.dirname(os.path.abspath(__file__)))
 from vlib import *
 
 
+def int_fields(events, fields=("n",)):
+    """Hook fields logged as decimal strings (to keep 64-bit counts out of JSON numbers) become
+    integers again; counts that do not fit TLC's 32-bit integers become -1 ("Big")."""
+    out = []
+    for e in events:
+        if e.get("ev") == "Backoff":
+            e = dict(e)
+            for f in fields:
+                if isinstance(e.get(f), str):
+                    v = int(e[f])
+                    e[f] = v if v < 64 else -1
+        out.append(e)
+    return out
+
+
 def normalise(events):
     """Lossless normalisation of recorded events for TLC: JSON null (a nil Go slice) becomes an
     empty list for list-valued fields and is dropped otherwise."""
@@ -650,7 +665,167 @@ def c09(ctx):
         selftest(ctx, "HttpMsgTrace", "HttpMsgTrace.cfg", okseg[0], [("forged-identity-first", forged_first), ("authorization-leaks", auth_leaks)])
 
 
-CHECKS = {"C02": c02, "C03": c03, "C09": c09, "C01": c01, "C04": c04, "C07": c07, "C05": c05, "C06": c06}
+def life_cases(ctx):
+    gen = tlc_generate(ctx, "AgentLifeGen", "AgentLifeGen.cfg", "life_cases.json")
+    return json.load(open(gen))
+
+
+def life_validate(ctx, events, label, drop=()):
+    ev = int_fields(project(events, set(drop) | (NOISE - {"Backoff", "ListFail", "Healthy", "HealthProbe", "PollCheck"})))
+    segs = split_segments(ev)
+    fails = validate_segments(ctx, "AgentLifeTrace", "AgentLifeTrace.cfg", segs, batch=60)
+    for seg, idx, out, inv in fails:
+        e = seg[min(max(idx, 0), len(seg) - 1)]
+        sig = "%s:%s" % (seg[0].get("sig"), inv or e.get("ev"))
+        what = "%s scenario %s: event #%d %s is not a behaviour of AgentLife%s" % (
+            label, seg[0].get("sig"), idx + 1, json.dumps({k: v for k, v in e.items() if k not in ("pid", "seq", "src")}, sort_keys=True)[:300],
+            (" (invariant %s)" % inv) if inv else "")
+        report_failure(ctx, sig, what, seg=seg, tlc_out=out[-4000:])
+    return segs, fails
+
+
+def life_model(ctx, thorough):
+    tlc_must_hold(ctx, "AgentLife", "AgentLife_MC.cfg")
+    tlc_must_hold(ctx, "AgentLife", "AgentLife_MC_NoGrace.cfg")
+    if thorough:
+        tlc_must_hold(ctx, "AgentLife", "AgentLife_MCbig.cfg")
+    for sw in ("ShiftUnguarded", "PollBeforeHealthy", "NoReset", "CancelWorkers"):
+        tlc_must_fail(ctx, "AgentLife", "AgentLife_Attack_%s.cfg" % sw)
+
+
+def c08(ctx):
+    ctx.rule = ("cases = (a) the real ExponentialBackoffDuration for every retry count enumerated by TLC (0..70 and Big = 64, 65, 100, 2^32, 2^63-1, 2^63, "
+                "2^64-1), min/max over 1000 (quick) / 100000 (thorough) draws each, judged against Lo/Hi of AgentLife; (b) the real agent binary against a "
+                "fake proxy failing its list calls in scripted patterns; distinct = distinct retry counts and patterns")
+    ctx.assumptions = ["time between a failing list reply and the next list call is measured on the fake proxy's monotonic clock and must be >= Lo(n)",
+                       "an upper bound on the observed gap is not enforced (scheduling noise); the logged delay itself is bounded by Hi(n)"]
+    thorough = ctx.tier == "thorough"
+    life_model(ctx, thorough)
+    cases = life_cases(ctx)
+    cpath = os.path.join(ctx.scratch, "life_cases.json")
+    json.dump(cases, open(cpath, "w"))
+    go_build_repo(ctx, "./agent", "agent")
+    go_build_harness(ctx)
+    events, _ = drive(ctx, "backoff", cases=cpath, timeout=1800)
+    # the function-level phase emits its own aggregated events; the per-call hook events are noise there
+    keep = []
+    started = False
+    for e in events:
+        if e.get("ev") == "Reset":
+            started = True
+        if started:
+            keep.append(e)
+    segs, fails = life_validate(ctx, keep, "back-off", drop={"Healthy", "HealthProbe"})
+    if not fails:
+        loops = [s for s in segs if any(e.get("ev") == "Backoff" for e in s)]
+
+        def zero_delay(seg):
+            for e in seg:
+                if e.get("ev") == "Backoff":
+                    e["d_us"] = 0
+                    return True
+            return False
+
+        def no_reset(seg):
+            seen_ok = False
+            for e in seg:
+                if e.get("ev") == "ListOK":
+                    seen_ok = True
+                if seen_ok and e.get("ev") == "ListFail":
+                    e["retry"] = e["retry"] + 3
+                    return True
+            return False
+
+        def busy(seg):
+            for i, e in enumerate(seg):
+                if e.get("ev") == "ListAnswer" and not e.get("ok"):
+                    for j in range(i + 1, len(seg)):
+                        if seg[j].get("ev") == "ListArrive":
+                            seg[j]["t_us"] = e["t_us"] + 1
+                            if any(x.get("ev") == "ListFail" and x.get("retry", 0) >= 1 for x in seg[:j]):
+                                return True
+            return False
+        target = [s for s in loops if any(e.get("ev") == "ListOK" for e in s)] or loops
+        selftest(ctx, "AgentLifeTrace", "AgentLifeTrace.cfg", target[0], [("zero-delay", zero_delay), ("retry-counter-not-reset", no_reset), ("busy-loop", busy)])
+
+
+def c20(ctx):
+    import random
+    ctx.rule = ("cases = health-check histories enumerated by TLC (sequences over {pass, fail} of length <= 5, thresholds 1..3; quick: seeded sample of 14 "
+                "incl. fixed shapes, thorough: all 186) against the real agent binary with a scripted health endpoint (1 s interval), and signal placements "
+                "{idle, request listed, request at backend, before healthy} x {SIGINT, SIGTERM} x grace/latency combinations; distinct = distinct scenarios")
+    ctx.assumptions = ["prompt exit = within 2 s of the signal; end of grace period = within [grace-50ms, grace+2s]",
+                       "a failed health check = non-200 answer (an endpoint that never answers is not generated)",
+                       "'no new polls': no list call whose context check saw the cancellation (at most the one in flight continues)"]
+    thorough = ctx.tier == "thorough"
+    life_model(ctx, thorough)
+    cases = life_cases(ctx)
+    rnd = random.Random(ctx.seed)
+    hs = cases["health"]
+    if not thorough:
+        must = [h for h in hs if (h["threshold"], "".join(h["history"])) in {(2, "PFPFF"), (1, "FFP"), (3, "PFFPF"), (2, "FFPFP"), (1, "PF"), (3, "PFFF")}]
+        rest = [h for h in hs if h not in must]
+        hs = must + rnd.sample(rest, 8)
+    cpath = os.path.join(ctx.scratch, "life_cases.json")
+    json.dump({"health": hs, "retry": []}, open(cpath, "w"))
+    ctx.extra["health_histories_enumerated_by_tlc"] = len(cases["health"])
+    go_build_repo(ctx, "./agent", "agent")
+    go_build_harness(ctx)
+    events, _ = drive(ctx, "life", cases=cpath, timeout=3000)
+    segs, fails = life_validate(ctx, events, "lifecycle", drop={"Backoff"} if False else ())
+    if not fails:
+        hsegs = [s for s in segs if s[0].get("sig", "").startswith("health:") and any(e.get("ev") == "Exit" for e in s)]
+        ssegs = [s for s in segs if s[0].get("sig", "").startswith("signal:backend") and "grace2000" in s[0].get("sig", "")]
+
+        def list_before_healthy(seg):
+            for i, e in enumerate(seg):
+                if e.get("ev") == "HealthReply":
+                    seg.insert(i, {"ev": "PollCheck"})
+                    return True
+            return False
+
+        def exit_early(seg):
+            idx = [i for i, e in enumerate(seg) if e.get("ev") == "HealthReply"]
+            ex = [i for i, e in enumerate(seg) if e.get("ev") == "Exit"]
+            if len(idx) < 2 or not ex:
+                return False
+            e = seg.pop(ex[0])
+            seg.insert(idx[-1], e)
+            return True
+
+        def poll_after_cancel(seg):
+            for i, e in enumerate(seg):
+                if e.get("ev") == "PollStop":
+                    seg[i] = {"ev": "PollCheck"}
+                    return True
+            for i, e in enumerate(seg):
+                if e.get("ev") == "Cancel":
+                    seg.insert(i + 1, {"ev": "PollCheck"})
+                    return True
+            return False
+
+        def lost_inflight(seg):
+            for i, e in enumerate(seg):
+                if e.get("ev") == "FakePost":
+                    del seg[i]
+                    return True
+            return False
+
+        def late_exit(seg):
+            for e in seg:
+                if e.get("ev") == "Exit":
+                    e["after_ms"] = e["after_ms"] + 5000
+                    return True
+            return False
+        if hsegs:
+            selftest(ctx, "AgentLifeTrace", "AgentLifeTrace.cfg", hsegs[0], [("list-before-healthy", list_before_healthy), ("exit-before-threshold", exit_early)])
+        if ssegs:
+            selftest(ctx, "AgentLifeTrace", "AgentLifeTrace.cfg", ssegs[0], [("poll-after-cancel", poll_after_cancel), ("in-flight-request-lost", lost_inflight), ("exit-too-late", late_exit)])
+        if not hsegs or not ssegs:
+            raise Inconclusive("self-test segments missing")
+
+
+CHECKS = {"C08": c08, "C20": c20, "C02": c02, "C03": c03, "C09": c09, "C01": c01, "C04": c04, "C07": c07, "C05": c05, "C06": c06}
 
 if __name__ == "__main__":
     pid = sys.argv[1]
